@@ -1,0 +1,65 @@
+//go:build verif
+
+package linter
+
+import (
+	"go/ast"
+	"go/types"
+)
+
+// VerifEvent describes one specification-level action of the checker
+// lifecycle (construction, context switches, Check begin/end).
+//
+// It exists only in builds with the "verif" tag; external conformance
+// tooling installs VerifRecorder to observe the actions. Without the tag
+// the hooks are empty functions (see verif_off.go).
+type VerifEvent struct {
+	Ev       string // "New", "SetPkg", "SetFile", "CheckBegin", "CheckEnd"
+	Checker  string
+	Err      error
+	Ctx      *Context
+	Pkg      *types.Package
+	Filename string
+	File     *ast.File
+	BufLen   int
+	Warnings []Warning
+}
+
+// VerifRecorder receives every event when non-nil.
+//
+// It must be assigned before any goroutine that runs checkers is started
+// and never afterwards: the hooks read it without synchronization on purpose,
+// so that they do not add happens-before edges to the instrumented program.
+var VerifRecorder func(*VerifEvent)
+
+func verifNew(c *Checker, err error) {
+	if VerifRecorder != nil {
+		VerifRecorder(&VerifEvent{Ev: "New", Checker: c.Info.Name, Err: err, Ctx: c.ctx.Context})
+	}
+}
+
+func verifSetPkg(ctx *Context, pkg *types.Package) {
+	if VerifRecorder != nil {
+		VerifRecorder(&VerifEvent{Ev: "SetPkg", Ctx: ctx, Pkg: pkg})
+	}
+}
+
+func verifSetFile(ctx *Context, name string, f *ast.File) {
+	if VerifRecorder != nil {
+		VerifRecorder(&VerifEvent{Ev: "SetFile", Ctx: ctx, Filename: name, File: f})
+	}
+}
+
+func verifCheckBegin(c *Checker, f *ast.File) {
+	if VerifRecorder != nil {
+		VerifRecorder(&VerifEvent{Ev: "CheckBegin", Checker: c.Info.Name, Ctx: c.ctx.Context,
+			Filename: c.ctx.Filename, File: f, BufLen: len(c.ctx.warnings)})
+	}
+}
+
+func verifCheckEnd(c *Checker, f *ast.File) {
+	if VerifRecorder != nil {
+		VerifRecorder(&VerifEvent{Ev: "CheckEnd", Checker: c.Info.Name, Ctx: c.ctx.Context,
+			Filename: c.ctx.Filename, File: f, BufLen: len(c.ctx.warnings), Warnings: c.ctx.warnings})
+	}
+}
